@@ -443,12 +443,11 @@ def noise_tables_keyed_by_symbols(ctx):
             continue
         results = {}
         stop = False
-        # score adds up the squared noises of a table in the sorted order of its keys: for a table of 2+ entries that are not all names that
-        # order is undefined (Symbols do not sort; the library raises TypeError there) - score is not called on those, and counted
-        score_defined = all(len(t) == 1 or all(isinstance(r, str) for r in t) for t in noises.values())
-        if not score_defined:
-            ctx.count("score_not_called:multi_entry_table_with_symbol_keys")
-        for call in ("transform", "mahalanobis", "score") if score_defined else ("transform", "mahalanobis"):
+        # a noise table may key its readings by Symbol (names are what counts: compile_ekf, transform and mahalanobis take such tables);
+        # score must then be the documented combination too (F17: it raised TypeError while sorting the Symbols of a 2+-entry table)
+        if not all(len(t) == 1 or all(isinstance(r, str) for r in t) for t in noises.values()):
+            ctx.count("score_called:multi_entry_table_with_symbol_keys")
+        for call in ("transform", "mahalanobis", "score"):
             try:
                 with fk.quiet():
                     r1 = getattr(ad, call)(X.copy())
@@ -489,6 +488,15 @@ def noise_tables_keyed_by_symbols(ctx):
                      f"returns {Tt.tolist()}", case)
         elif M.shape != (T.size,) or not np.array_equal(M, T.flatten()):
             ctx.fail("mahalanobis-not-flat:noise-keys", f"{label}: mahalanobis is not the transform flattened", case)
+        try:
+            with fk.quiet():
+                twin_score = float(twin.score(X.copy()))
+        except Exception as e:
+            ctx.fail(f"adapter-raises:{fk.exc_kind(e)}:noise-keys", f"{label}: score of the name-keyed twin raises {e!r}"[:300], case)
+            continue
+        if not core.close(float(results["score"]), twin_score, scale=abs(twin_score)):
+            ctx.fail("score-vs-name-keyed-twin", f"{label}: score {float(results['score'])!r}, the estimator with the same noises keyed by names "
+                     f"scores {twin_score!r}", case)
 
 
 def run(ctx):
